@@ -345,6 +345,7 @@ func C03(ctx *core.Ctx) {
 				"the remaining-frame counter is not decreased by the number of bytes actually read (e.g. by the bytes requested): after a short read the frame boundary is lost — large or fragmented messages fail or desynchronise the connection")
 		})
 		ctx.Check(n >= 2, "C03.R7", ssax.Name(rd)+" › frame counter is maintained", fnPos(r, rd), sprintf("%d updates", n), "the framed reader no longer tracks the remaining bytes of the frame")
+		framedReadAccounting(ctx, r, rd, "C03.R7")
 	}
 
 	// ---- R8 -------------------------------------------------------------------------------
@@ -444,6 +445,83 @@ func C03(ctx *core.Ctx) {
 			ctx.Check(!bad, "C03.R3", "golang."+name+" › per-exception code on every non-oneway path", cc.IPos(rangeI), "every return that skips the exceptions loop is on the method.Oneway edge",
 				"for some methods (e.g. void ones) the generator returns before emitting the per-exception code: a declared exception raised by the handler is silently dropped by the generated client / not mapped by the generated processor")
 		}
+		c03ExceptionLoops(ctx, cc)
+	}
+}
+
+// c03ExceptionLoops — C03.R3 for the other target languages: in every function
+// of the Java, Dart and Python generators that iterates over a method's
+// declared exceptions, a return that skips the loop is taken only for oneway
+// methods. (Returning early for void methods drops `throws` of void methods:
+// the generated client returns normally although the handler raised a
+// declared exception.)
+func c03ExceptionLoops(ctx *core.Ctx, cc *CC) {
+	for _, fn := range cc.Fns {
+		if fn.Pkg == nil {
+			continue
+		}
+		pn := fn.Pkg.Pkg.Name()
+		if pn != "java" && pn != "dartlang" && pn != "python" {
+			continue
+		}
+		var rangeI ssa.Instruction
+		ssax.Instrs(fn, func(in ssa.Instruction) {
+			c, ok := ssax.AsCall(in)
+			if !ok || c.FullName() != "builtin.len" || fieldNameOfValue(c.Common.Args[0]) != "Exceptions" || rangeI != nil {
+				return
+			}
+			// of a parser.Method
+			if u, isU := ssax.Strip(c.Common.Args[0]).(*ssa.UnOp); isU {
+				// a per-method generator function: the method is a parameter (in a function that loops
+				// over all methods, "no method at all" is a legitimate way round the loop)
+				if fa, isFA := u.X.(*ssa.FieldAddr); isFA && ssax.TypeNamed(fa.X.Type(), "parser", "Method") {
+					if _, isParam := ssax.Strip(fa.X).(*ssa.Parameter); isParam {
+						rangeI = in
+					}
+				}
+			}
+		})
+		if rangeI == nil {
+			continue
+		}
+		bad := false
+		ssax.Instrs(fn, func(in ssa.Instruction) {
+			ret, ok := in.(*ssa.Return)
+			if !ok || in.Block().Comment == "recover" {
+				return
+			}
+			isThis := func(x ssa.Instruction) bool { return x == ssa.Instruction(ret) }
+			isLoop := func(x ssa.Instruction) bool { return x == rangeI }
+			if p := ssax.PathFrom(fn, nil, isThis, isLoop); p == nil {
+				return
+			}
+			okEdge := false
+			for cur := in.Block(); cur != nil; cur = cur.Idom() {
+				if len(cur.Preds) != 1 {
+					continue
+				}
+				pb := cur.Preds[0]
+				iff, isIf := pb.Instrs[len(pb.Instrs)-1].(*ssa.If)
+				if !isIf {
+					continue
+				}
+				cond := iff.Cond
+				neg := false
+				if u, isU := cond.(*ssa.UnOp); isU && u.Op == token.NOT {
+					cond, neg = u.X, true
+				}
+				if fieldNameOfValue(cond) == "Oneway" {
+					if (pb.Succs[0] == cur) != neg {
+						okEdge = true
+					}
+				}
+			}
+			if !okEdge {
+				bad = true
+			}
+		})
+		ctx.Check(!bad, "C03.R3", QName(fn)+" › per-exception code on every non-oneway path", cc.IPos(rangeI), "every return that skips the exceptions loop is on the method.Oneway edge",
+			"for some methods (e.g. void ones) the generator returns before emitting the per-exception code: a declared exception raised by the handler is silently dropped by the generated client / not mapped by the generated processor")
 	}
 }
 
@@ -513,4 +591,38 @@ func dominatedByEquality(in ssa.Instruction, a ssa.Value, b ssa.Value, k *int64)
 		}
 	}
 	return false
+}
+
+// framedReadAccounting: every read from the underlying reader in
+// TFramedTransport.Read is followed by an update of the remaining-frame
+// counter on every path to a return.
+func framedReadAccounting(ctx *core.Ctx, r *RT, rd *ssa.Function, rule string) {
+	// every read from the underlying reader is accounted for before the function returns
+	k := 0
+	for _, c := range ssax.Calls(rd) {
+		reads := false
+		for _, a := range c.Args() {
+			if fieldNameOfValue(a) == "reader" {
+				reads = true
+			}
+		}
+		if !reads {
+			continue
+		}
+		if full := c.FullName(); !(strings.HasSuffix(full, ".Read") || full == "io.ReadFull" || full == "io.ReadAtLeast") {
+			continue
+		}
+		k++
+		isStore := func(in ssa.Instruction) bool {
+			st, ok := in.(*ssa.Store)
+			return ok && fieldNameOfAddr(st.Addr) == "frameSize"
+		}
+		bad := ssax.PathFrom(rd, c.Instr.(ssa.Instruction), ssax.IsReturn, isStore)
+		if bad == nil {
+			ctx.Discharge(rule, ssax.Name(rd)+sprintf(" › read #%d of the underlying stream is counted", k), r.IPos(c.Instr), "frameSize is updated on every path to a return")
+		} else {
+			ctx.Violate(rule, ssax.Name(rd)+sprintf(" › read #%d of the underlying stream is counted", k), r.IPos(c.Instr),
+				"bytes are consumed from the underlying stream and the function can return without updating the remaining-frame counter: the next Read resumes inside the old frame's accounting, so the following request on the same connection is decoded from the wrong offset (its size prefix is taken for payload) and is never answered", ssax.PathString(r.V.Fset, bad)...)
+		}
+	}
 }
